@@ -52,6 +52,10 @@ class PerfectCoronagraph(OpticalElement):
         self.mode_basis = ModeBasis(modes).orthogonalized
 
         self.transformation = self.mode_basis.transformation_matrix
+
+        # On a grid with fewer points than modes, the orthogonalized basis has fewer modes
+        # than there are coefficients.
+        self.coeffs = np.asarray(self.coeffs)[:self.transformation.shape[1]]
         self.transformation_inverse = inverse_truncated(self.transformation, 1e-6)
 
     def forward(self, wavefront):
